@@ -1220,3 +1220,42 @@ func (c *Ctx) stableFieldKey(tname, fname string) string {
 	}
 	return tname + "." + fname
 }
+
+// retVal: the value a Return hands back as result idx. In functions with defers
+// go/ssa spills results: "*r = v; rundefers; t = *r; return t" - then the value
+// is the last store to the result cell in the returning block.
+func retVal(ret *ssa.Return, idx int) ssa.Value {
+	if idx >= len(ret.Results) {
+		return nil
+	}
+	v := ret.Results[idx]
+	u, ok := v.(*ssa.UnOp)
+	if !ok || u.Op != token.MUL {
+		return v
+	}
+	a, ok := u.X.(*ssa.Alloc)
+	if !ok {
+		return v
+	}
+	var last ssa.Value
+	for _, i := range ret.Block().Instrs {
+		if i == ssa.Instruction(u) {
+			break
+		}
+		if st, ok := i.(*ssa.Store); ok && st.Addr == ssa.Value(a) {
+			last = st.Val
+		}
+	}
+	if last != nil {
+		return last
+	}
+	// stored in a dominating block
+	for b := ret.Block().Idom(); b != nil; b = b.Idom() {
+		for k := len(b.Instrs) - 1; k >= 0; k-- {
+			if st, ok := b.Instrs[k].(*ssa.Store); ok && st.Addr == ssa.Value(a) {
+				return st.Val
+			}
+		}
+	}
+	return v
+}
